@@ -5,6 +5,7 @@
 package simexec
 
 import (
+	"strings"
 	"context"
 	"errors"
 	"io"
@@ -37,10 +38,14 @@ func CommandContext(ctx context.Context, name string, arg ...string) *Cmd {
 	return Command(name, arg...)
 }
 
+// Missing: a binary whose name says so is not installed on any simulated
+// machine (so that WHICH configured path the server probes is observable).
+func Missing(path string) bool { return strings.Contains(path, "missing") }
+
 var ErrNotFound = errors.New("executable file not found in $PATH")
 
 func LookPath(file string) (string, error) {
-	r := simrt.Env("exec.lookpath", file, func() *simrt.Resp { return &simrt.Resp{B: Active.VersionOK} })
+	r := simrt.Env("exec.lookpath", file, func() *simrt.Resp { return &simrt.Resp{B: Active.VersionOK && !Missing(file)} })
 	if r.B {
 		return "/usr/bin/" + file, nil
 	}
@@ -51,7 +56,7 @@ func (c *Cmd) Run() error {
 	isVersion := len(c.Args) == 2 && c.Args[1] == "--version"
 	r := simrt.Env("exec.run", c.Path, func() *simrt.Resp {
 		Active.Runs++
-		return &simrt.Resp{B: Active.VersionOK && isVersion}
+		return &simrt.Resp{B: Active.VersionOK && isVersion && !Missing(c.Path)}
 	})
 	if r.B {
 		if c.Stdout != nil {
